@@ -115,6 +115,8 @@ def check(model: Model, run: Run) -> None:
     lemma_no_silent_clamp(model, run, mr)
     # ---- (c) sibling constants -------------------------------------------------------
     sibling_constants(model, run)
+    # ---- (d) the primitives never modify the buffers they are handed ---------------------
+    argument_mutation(model, run, fns)
 
 
 
@@ -235,3 +237,36 @@ def sibling_constants(model: Model, run: Run) -> None:
     cmp = [n for n in ast.walk(rb.node) if isinstance(n, ast.Compare) and len(n.ops) == 1 and isinstance(n.comparators[0], ast.Constant) and isinstance(n.comparators[0].value, bytes)]
     ok = len(cmp) == 1 and isinstance(cmp[0].ops[0], ast.NotEq) and cmp[0].comparators[0].value == b"\x00"
     ob("S5-boolean-octets", ok, "BOOLEAN reader must decide truth as `content != b'\\x00'` (any non-zero octet is TRUE)", rb.node, rb, {"reader_test": norm(cmp[0]) if cmp else None})
+
+
+MUTATORS = {"append", "extend", "insert", "clear", "pop", "remove", "reverse", "sort", "__setitem__", "__delitem__", "__iadd__", "release"}
+
+
+def argument_mutation(model: Model, run: Run, fns) -> None:
+    """A2: no function of asn1.py stores into, deletes from or calls a mutating method on one of its own parameters (self
+    excepted).  Writing a value twice must produce the same octets, and a reader must leave the caller's buffer alone; an
+    in-place edit of a caller-owned bytearray breaks both silently."""
+    n = 0
+    for fi in fns:
+        ps = fi.params()
+        if fi.cls and not fi.is_staticmethod:
+            ps = ps[1:]
+        ps = set(ps)
+        rebound = {x.id for x in walk_no_nested(fi.node) if isinstance(x, ast.Name) and isinstance(x.ctx, ast.Store)}
+        live = ps - rebound            # a parameter that is re-bound to a fresh local value is no longer the caller's object
+        n += 1
+        for x in walk_no_nested(fi.node):
+            bad = None
+            if isinstance(x, (ast.Subscript, ast.Attribute)) and isinstance(x.ctx, (ast.Store, ast.Del)) and isinstance(x.value, ast.Name) and x.value.id in live:
+                bad = f"`{norm(x)}` is assigned/deleted"
+            elif isinstance(x, ast.Call) and isinstance(x.func, ast.Attribute) and x.func.attr in MUTATORS and isinstance(x.func.value, ast.Name) and x.func.value.id in live:
+                bad = f"`{norm(x)[:50]}` mutates the argument"
+            elif isinstance(x, ast.AugAssign) and isinstance(x.target, ast.Name) and x.target.id in ps:
+                an = next((norm(a.annotation) for a in fi.node.args.args + fi.node.args.kwonlyargs if a.arg == x.target.id and a.annotation is not None), "")
+                if "bytearray" in an or "List" in an or "list" in an:
+                    bad = f"`{norm(x)[:50]}` extends a mutable argument in place"
+            if bad:
+                run.ob("A2-no-argument-mutation", False, {"function": fi.name, "what": bad})
+                run.fail(Finding("A2-no-argument-mutation", fi.qualname, norm(x)[:80], f"{fi.name}: {bad}: the caller's buffer is changed by encoding/decoding it", model.loc(fi.module, x)))
+        run.ob("A2-no-argument-mutation", True)
+    run.floor("asn1 functions checked for argument mutation", n, 30)
